@@ -550,3 +550,40 @@ Example C13_ex_traced_attr :
   attr_case_ok (true, true, [10; 11], (1, 2)) = true /\ attr_case_ok (false, false, [10; 11], (0, 2)) = true
   /\ ctor_case_ok ([1; 1], true) = true /\ ctor_case_ok ([2; 1], false) = true /\ ctor_case_ok ([1; 2; 1], false) = true.
 Proof. vm_compute. repeat split; reflexivity. Qed.
+
+(** * Round 4: the void wrappers (numpy.testing assertions) have an outcome *)
+
+(** the wrapped assertion returns iff the library assertion returns for EVERY block *)
+Theorem C13_map_void_passes_iff :
+  forall (A Exn : Type) (V : list (arg A) -> list (key * arg A) -> option Exn)
+         (n : nat) (args : list (arg A)) (kw : list (key * arg A)),
+    wf A n (args ++ map snd kw) -> (0 < n)%nat -> has_blk A (args ++ map snd kw) = true ->
+    (map_void_func_over_blocks A Exn V args kw = Ok None <->
+     forall i, (i < n)%nat -> V (map (pick A i) args) (fmap (pick A i) kw) = None).
+Proof. exact map_void_passes_iff. Qed.
+Print Assumptions C13_map_void_passes_iff.
+
+(** and raises iff it raises for SOME block *)
+Theorem C13_map_void_raises_iff :
+  forall (A Exn : Type) (V : list (arg A) -> list (key * arg A) -> option Exn)
+         (n : nat) (args : list (arg A)) (kw : list (key * arg A)),
+    wf A n (args ++ map snd kw) -> (0 < n)%nat -> has_blk A (args ++ map snd kw) = true ->
+    ((exists e, map_void_func_over_blocks A Exn V args kw = Ok (Some e)) <->
+     exists i, (i < n)%nat /\ V (map (pick A i) args) (fmap (pick A i) kw) <> None).
+Proof. exact map_void_raises_iff. Qed.
+Print Assumptions C13_map_void_raises_iff.
+
+(** block-block: conjunction over corresponding blocks, independent of the block order *)
+Theorem C13_map_void_order_independent :
+  forall (A Exn : Type) (V : list (arg A) -> list (key * arg A) -> option Exn) (xs ys xs' ys' : list A),
+    xs <> nil -> xs' <> nil -> length xs = length ys -> length xs' = length ys' ->
+    (forall p, In p (combine xs ys) <-> In p (combine xs' ys')) ->
+    (map_void_func_over_blocks A Exn V (Blk xs :: Blk ys :: nil) nil = Ok None <->
+     map_void_func_over_blocks A Exn V (Blk xs' :: Blk ys' :: nil) nil = Ok None).
+Proof. exact map_void_order_independent. Qed.
+Print Assumptions C13_map_void_order_independent.
+
+Example C13_ex_void :
+  void_case_ok ([Blk [VObj 1; VObj 2; VObj 3]; Blk [VObj 4; VObj 5; VObj 6]], [], [5; 6], (1, 5)) = true
+  /\ void_case_ok ([Blk [VObj 1; VObj 2]], [(2, Pln (VObj 9))], [], (0, 0)) = true.
+Proof. vm_compute. split; reflexivity. Qed.
